@@ -164,3 +164,43 @@ Theorem C08_reveal_after_incremental : forall n T M dr, (2 <= n)%nat -> TInv n T
                        else (0, l1, r1) in
   a1 + a2 = snd (rs_finish n (flat n T rs_init (us ++ ws))) - snd A - snd B.
 Proof. intros n T M dr Hn I Hr Hx. exact (reveal_after_incremental n Hn T M I dr Hr Hx). Qed.
+
+(* ... and the left-hand side: RevealBefore in instalments.  Between two calls the left pointers themselves are rewritten (each
+   is replaced by its extension with the words revealed so far), so this is not a loop split but a loop interchange: ExtendLeft
+   over A1 ++ A2 is ExtendLeft over A1 followed by ExtendLeft over A2 from the extended pointer (el_comp_indep, el_comp_ext --
+   the latter needs the loader invariant: the extension bit is inherited by suffixes), and the single call, the first call and the
+   second call are run side by side (Rel_step: three phases -- all still writing / the single call stopped with the second
+   call / the first call stopped).  Where the first call's left.full is set from the LENGTH of the right state while its loop had
+   not stopped, the longest pointer has length N-1 and uses up all further context (run2_last), so charging the remaining
+   back-offs at once or appending them to the right state are both no-ops. *)
+Theorem C08_reveal_before_instalments_one_call : forall n T M dr, (2 <= n)%nat -> TInv n T M ->
+  (dr = false -> forall k e, T k = Some e -> e_rest e = e_prob e) ->
+  (forall k e, T k = Some e -> e_ext e = true -> (2 <= length k)%nat -> exists x, T (x :: k) <> None) ->
+  forall cuts c W Bk l r seen, length Bk = length W -> (length W <= n - 1)%nat -> BJ n l r seen ->
+  sincreasing seen (c :: cuts) (length W) ->
+  rb_seq n T dr W Bk l r seen (c :: cuts) = reveal_before n T dr (rvc W Bk (last cuts c)) seen false l r.
+Proof. intros n T M dr Hn I Hr Hx. exact (rb_seq_one_shot n Hn T M I dr Hr Hx). Qed.
+
+Theorem C08_reveal_before_closing_call : forall n T M dr, (2 <= n)%nat -> TInv n T M ->
+  (dr = false -> forall k e, T k = Some e -> e_rest e = e_prob e) ->
+  (forall k e, T k = Some e -> e_ext e = true -> (2 <= length k)%nat -> exists x, T (x :: k) <> None) ->
+  forall rv l r, length (s_bo rv) = length (s_words rv) -> s_words rv <> [] -> Forall (good' n) (l_ptrs l) ->
+  reveal_before n T dr rv 0 true l r =
+  (let '(x1, l1, r1) := reveal_before n T dr rv 0 false l r in
+   let '(x2, l2, r2) := reveal_before n T dr rv (length (s_words rv)) true l1 r1 in (x1 + x2, l2, r2)).
+Proof. intros n T M dr Hn I Hr Hx. exact (rb_finish n Hn T M I dr Hr Hx). Qed.
+
+Theorem C08_reveal_before_incremental : forall n T M dr, (2 <= n)%nat -> TInv n T M ->
+  (dr = false -> forall k e, T k = Some e -> e_rest e = e_prob e) ->
+  (forall k e, T k = Some e -> e_ext e = true -> (2 <= length k)%nat -> exists x, T (x :: k) <> None) ->
+  forall us ws c cuts, Forall (known T) us -> Forall (known T) ws ->
+  let A := rs_finish n (flat n T rs_init us) in
+  let B := rs_finish n (flat n T rs_init ws) in
+  let rv := c_right (fst A) in
+  sincreasing 0 (c :: cuts) (length (s_words rv)) -> last cuts c = length (s_words rv) ->
+  let '(a1, l1, r1) := rb_seq n T dr (s_words rv) (s_bo rv) (c_left (fst B)) (c_right (fst B)) 0 (c :: cuts) in
+  let '(a2, l2, r2) := if l_full (c_left (fst A))
+                       then reveal_before n T dr rv (length (s_words rv)) true l1 r1
+                       else (0, l1, r1) in
+  a1 + a2 = snd (rs_finish n (flat n T rs_init (us ++ ws))) - snd A - snd B.
+Proof. intros n T M dr Hn I Hr Hx. exact (reveal_before_incremental n Hn T M I dr Hr Hx). Qed.
